@@ -4,7 +4,10 @@ package uuid
 
 func H_C13_uuid_binary() {
 	raw := vBytes("raw", 16)
+	// the receiver starts from an arbitrary earlier value (a reused object): the result may depend only on raw
 	var u UUID
+	u.Version, u.Variant = vU8("prev.version"), vU8("prev.variant")
+	copy(u.Data[:], vBytes("prev.data", 15))
 	n, err := u.Unmarshal(raw)
 	vCheck(err == nil && n == 16, "uuid/binary/unmarshal-ok")
 	out, err := u.Marshal()
@@ -41,6 +44,8 @@ func H_C13_uuid_text() {
 		lower[i] = vIte8(vAnd(s[i] >= 'A', s[i] <= 'Z'), s[i]+32, s[i])
 	}
 	var u UUID
+	u.Version, u.Variant = vU8("prev.version"), vU8("prev.variant")
+	copy(u.Data[:], vBytes("prev.data", 15))
 	err := u.FromString(s)
 	vCheck(err == nil, "uuid/text/accepted")
 	if err == nil {
